@@ -12,6 +12,8 @@ import Varlink.Lifecycle
 import VarlinkProofs.Lemmas.Frame
 import VarlinkProofs.Lemmas.LifecycleBasic
 import VarlinkProofs.Props.C14
+import Varlink.Extracted.Code
+import Varlink.ExpectedCode
 namespace Varlink.C10
 open Varlink Varlink.Life
 
@@ -169,5 +171,11 @@ theorem gone_peer_handler_progress {w : World} (h : Reachable w) {i : Nat} {x : 
 
 example : (splitOnNul [1, 0, 2, 0]).2 = [] ∧ (0 : UInt8) ∉ [3, 4] := by decide
 example : (decodeCall (str "[1]")).isNone = true := by decide
+
+/-- **Tie to the source**: the declarations of /repo that this property's model transliterates
+    (`Extracted.codeNames_C10`) have, in the current working tree, exactly the fingerprints of the code the
+    model was validated against. Any change to them breaks this obligation; the check then searches the
+    correspondence streams for an input on which the changed code violates the property. -/
+theorem modelled_code_unchanged : Varlink.Extracted.code_C10 = Varlink.ExpectedCode.code_C10 := by decide
 
 end Varlink.C10
